@@ -5,7 +5,7 @@ import json, os, subprocess, sys
 
 ROOT = os.path.dirname(os.path.dirname(os.path.abspath(__file__)))
 
-HOOK_COMMITS = ["7a84c71", "6c41cd0"]
+HOOK_COMMITS = ["7a84c71", "6c41cd0", "cace6e8", "19dcc18"]
 
 # id -> (technique, level text, level note, design ref)
 CHECKS = {
